@@ -362,7 +362,16 @@ func (vt *Model) recover() {
 	vt.Close()
 }
 
+// Resize sets the size of the terminal and tells the child about it. It may
+// be called while the child is writing
 func (vt *Model) Resize(w int, h int) {
+	vt.mu.Lock()
+	defer vt.mu.Unlock()
+	vt.setSize(w, h)
+}
+
+// setSize is Resize for callers that hold the lock
+func (vt *Model) setSize(w int, h int) {
 	vt.resize(w, h)
 	_ = pty.Setsize(vt.pty, &pty.Winsize{
 		Cols: uint16(w),
@@ -589,7 +598,7 @@ func (vt *Model) Draw(win vaxis.Window) {
 	if int(width) != vt.width() || int(height) != vt.height() {
 		win.Width = width
 		win.Height = height
-		vt.Resize(width, height)
+		vt.setSize(width, height)
 	}
 	for row := 0; row < vt.height(); row += 1 {
 		for col := 0; col < vt.width(); {
